@@ -1,5 +1,90 @@
-import PasslibVerif.Model.Apache
+import PasslibVerif.Lemmas.ApacheExport
+/-
+C16 — htpasswd/htdigest files stay a faithful user database under any edit history.
+-/
 namespace Props.C16
-open Py Model.Apache
-theorem placeholder_build : St.empty.records = [] := rfl
+open Py Model.Apache Lemmas.Apache
+
+/-! ### the `_records` / `_source` invariant holds in every reachable state -/
+theorem inv_init : Inv St.empty := inv_empty
+
+theorem inv_after_load (digest : Bool) (data : Bytes) (s : St) (h : loadString digest data = .ok s) : Inv s :=
+  inv_load digest _ s h
+
+theorem inv_preserved (digest : Bool) (vau : Bytes → Bytes → Bool × Option Bytes) (s : St) (op : Op) (h : Inv s) :
+    Inv (step digest vau s op) := inv_step digest vau s op h
+
+/-- every history (any number of operations, any arguments, any context behaviour, failed
+    operations included) from the empty file — or from any loaded file — stays consistent -/
+theorem inv_reachable (digest : Bool) (vau : Bytes → Bytes → Bool × Option Bytes) (ops : List Op) :
+    Inv (run digest vau St.empty ops) := inv_run digest vau ops St.empty inv_empty
+
+/-! ### export: exactly the current users with their current hashes, each once -/
+theorem each_key_once (digest : Bool) (vau : Bytes → Bytes → Bool × Option Bytes) (ops : List Op) :
+    ((emitted (run digest vau St.empty ops)).map (·.1)).Nodup :=
+  emitted_keys_nodup _ (inv_reachable digest vau ops)
+
+theorem export_is_current_db (digest : Bool) (vau : Bytes → Bytes → Bool × Option Bytes) (ops : List Op)
+    (k : Key) (v : Bytes) :
+    (k, v) ∈ emitted (run digest vau St.empty ops) ↔ lookup k (run digest vau St.empty ops).records = some v :=
+  mem_emitted_iff _ (inv_reachable digest vau ops) k v
+
+/-- the exported lines are the source tokens in order: skipped text verbatim, live records rendered -/
+theorem export_lines (s : St) :
+    iterLines s = s.source.filterMap fun
+      | .skipped t => some t
+      | .record k => (lookup k s.records).map (renderRecord k) := iterLines_eq s
+
+theorem untouched_tokens_in_place (digest : Bool) (vau : Bytes → Bytes → Bool × Option Bytes) (s : St) (op : Op)
+    (hop : ∀ d, op ≠ Op.load d) : s.source <+: (step digest vau s op).source := source_prefix digest vau s op hop
+
+/-! ### byte level: a rendered record line parses back to the same record -/
+theorem parse_render_passwd (u h : Bytes) (hu : 58 ∉ u) (hh : PlainHash h) :
+    parseRecord false (renderRecord ⟨u, none⟩ h) = .ok (⟨u, none⟩, h) := Lemmas.Apache.parse_render_passwd u h hu hh
+
+theorem parse_render_digest (u r h : Bytes) (hu : 58 ∉ u) (hr : 58 ∉ r) (hh : PlainHash h) :
+    parseRecord true (renderRecord ⟨u, some r⟩ h) = .ok (⟨u, some r⟩, h) :=
+  Lemmas.Apache.parse_render_digest u r h hu hr hh
+
+/-- accepted names contain no separator / control character and are at most 255 bytes -/
+theorem accepted_names (v w : Bytes) (h : encodeField v = .ok w) :
+    w = v ∧ 58 ∉ v ∧ 10 ∉ v ∧ 13 ∉ v ∧ 9 ∉ v ∧ 0 ∉ v ∧ v.length ≤ 255 := encodeField_ok_no_colon v w h
+
+theorem bad_name_refused (s : St) (user : Bytes) (realm : Option Bytes) (hash : Bytes)
+    (hbad : user.length > 255 ∨ ∃ c ∈ user, c ∈ invalidFieldChars) :
+    setHash s user realm hash = .error .valueError ∧ delete s user realm = .error .valueError ∧
+    getHash s user realm = .error .valueError := bad_field_refused s user realm hash hbad
+
+/-! ### dictionary semantics of the operations (refinement to a finite map) -/
+theorem get_after_set (s : St) (k : Key) (v : Bytes) : lookup k (setRecord s k v).1.records = some v :=
+  lookup_setItem_self k v s.records
+theorem get_other_after_set (s : St) (k k2 : Key) (v : Bytes) (h : k2 ≠ k) :
+    lookup k2 (setRecord s k v).1.records = lookup k2 s.records := lookup_setItem_other k k2 v h s.records
+theorem get_after_delete (k : Key) (r : List (Key × Bytes)) : lookup k (delItem k r) = none := lookup_delItem_self k r
+theorem get_other_after_delete (k k2 : Key) (r : List (Key × Bytes)) (h : k2 ≠ k) :
+    lookup k2 (delItem k r) = lookup k2 r := lookup_delItem_other k k2 h r
+
+/-- check_password: None for unknown users; otherwise the context's verdict on the STORED hash; an upgraded
+    hash is stored exactly when the context returns one for a correct password -/
+theorem check_password_spec (vau : Bytes → Bytes → Bool × Option Bytes) (s : St) (user pwd : Bytes) (k : Key)
+    (hk : encodeKey user none = .ok k) :
+    (lookup k s.records = none → checkPassword vau s user pwd = .ok (s, none)) ∧
+    (∀ h, lookup k s.records = some h →
+      ∃ s', checkPassword vau s user pwd = .ok (s', some (vau pwd h).1) ∧
+        (lookup k s'.records = match vau pwd h with | (true, some new) => some new | _ => some h)) := by
+  constructor
+  · intro hn; simp [checkPassword, hk, hn]
+  · intro h hl
+    simp only [checkPassword, hk, hl]
+    rcases hv : vau pwd h with ⟨ok, new⟩
+    cases ok <;> cases new <;> simp [hl, lookup_setItem_self]
+
+/-! ### non-vacuity: the delete-then-re-add history that used to corrupt the file -/
+def u1 : Bytes := [117, 49]
+example : toString (run false (fun _ _ => (false, none)) St.empty
+    [.load [117,49,58,104,10], .delete u1 none, .setHash u1 none [104,50]]) = [117,49,58,104,50,10] := by decide
+example : PlainHash [104, 50] ∧ (58 : Nat) ∉ u1 := by
+  refine ⟨⟨by decide, ?_⟩, by decide⟩
+  intro c hc; simp at hc; subst hc; decide
+
 end Props.C16
